@@ -54,6 +54,11 @@ mut("b_retry_unlock_reverse", "src/collection/retry.rs",
 mut("b_ordered_write_single_fast_path", "src/collection/utils.rs",
     "pub unsafe fn ordered_write(locks: &[&dyn RawLock]) {\n\t// these will be unlocked in case of a panic\n\tlet locked = Cell::new(0);\n",
     "pub unsafe fn ordered_write(locks: &[&dyn RawLock]) {\n\tif locks.len() == 1 {\n\t\treturn locks[0].raw_write();\n\t}\n\t// these will be unlocked in case of a panic\n\tlet locked = Cell::new(0);\n")
+mut("b_is_locked_query", "src/mutex/mutex.rs", "\t#[must_use]\n\tpub fn unlock(guard: MutexGuard<'_, T, R>) -> ThreadKey {",
+    "\t/// Whether the mutex is currently locked by anyone (a racy hint).\n\tpub fn is_locked_hint(&self) -> bool {\n\t\tself.raw.is_locked()\n\t}\n\n\t#[must_use]\n\tpub fn unlock(guard: MutexGuard<'_, T, R>) -> ThreadKey {")
+mut("b_private_lock_helper", "src/mutex/mutex.rs",
+    "\tpub fn lock(&self, key: ThreadKey) -> MutexGuard<'_, T, R> {\n\t\tunsafe {\n\t\t\t// safety: we have the thread key\n\t\t\tself.raw_write();\n",
+    "\tfn acquire(&self) {\n\t\t// safety: only called by functions that own the thread key\n\t\tunsafe { self.raw_write() }\n\t}\n\n\tpub fn lock(&self, key: ThreadKey) -> MutexGuard<'_, T, R> {\n\t\tunsafe {\n\t\t\t// safety: we have the thread key\n\t\t\tself.acquire();\n")
 
 # ---- renames of crate-internal helpers (anchors are discovered structurally) --------------------------------------------------
 M.append({"name": "b_rename_internal_helpers", "expect": [], "note": "sed-style renames across src/",
